@@ -124,6 +124,9 @@ def run_mc(pid, tier, workdir):
     """Run the design-level models of a property.  A failure here is a defect of the model (or of the
     property's reading), never of the code: it is reported as a tool error, not as a violation."""
     total = {'states': 0, 'transitions': 0, 'models': []}
+    if os.environ.get('VERIF_TRACES_ONLY'):
+        # developer switch for seed sweeps of the trace layer (the models do not depend on the seed)
+        return total
     for module, fams in PROPS[pid].get('mc', []):
         if module == 'MC_Math':
             runs = [(fams, mc_math_cfg(fams, tier))]
@@ -230,7 +233,7 @@ def check(pid, tier, seed):
                 samples.append({'stage': 'math', 'call': e.get('k'), 'input': e.get('h'), 'observed': e.get('r', e.get('r1'))})
             stages.append({'stage': 'math', 'kinds': spec['math'], 'events': res['n'], 'applicable': len(idx)})
         # ---- direction B: behaviours of the small-scope model executed by the real contracts --------
-        if any(m == 'MC_Pool' for m, _ in spec.get('mc', [])):
+        if any(m == 'MC_Pool' for m, _ in spec.get('mc', [])) and not os.environ.get('VERIF_TRACES_ONLY'):
             kinds = ['NN', 'NC', 'CC'] if tier == 'thorough' else [['NN', 'NC', 'CC'][int(pid[1:]) % 3]]
             num, depth = (1500, 8) if tier == 'thorough' else (64, 7)
             scs = []
